@@ -58,6 +58,7 @@ Inductive expr :=
 | ENext (e : expr)                                 (* e.next() *)
 | EToTuple (e : expr) | EToList (e : expr)         (* e.to_tuple() / e.to_list() *)
 | ECall (f : expr) (args : list expr)
+| ECallP (f : expr) (args : list (bool * expr))     (* f a..., b : arguments flagged true are packed (`a...`) *)
 | EPipe (a : expr) (f : expr) (args : list expr)   (* a -> f args *)
 | EReturn (v : option expr)
 | EMatch (subjects : list expr) (arms : list (list (list pattern) * option expr * expr)) (els : option expr)
